@@ -4,6 +4,7 @@ CONSTANTS
   MaxVer = 2
   MaxPin = 2
   FixDealloc = TRUE
+  Races = FALSE
 SPECIFICATION Spec
 VIEW View
 CONSTRAINT WalkBound
